@@ -1,6 +1,7 @@
 import Orca.Gen.RefTables
 import Orca.Lemmas.Ops
 import Orca.Lemmas.Preserve
+import Orca.Gen.MapSites
 /-!
 # C08 — memory references stay bound to the same memory across edits
 
@@ -61,5 +62,11 @@ theorem c08_memory_refs_after_any_history (s0 : St) (h0 : StInv s0) (ops : List 
     ∨ (∃ s' why, encode s = (s', Ret.panic why) ∧ ∃ r ∈ allRefs s, Dangling s r) :=
   let h := spaceInv_after s0 h0 ops hn
   c08_memory_refs _ h.1 h.2.1 h.2.2
+
+/-- **the uses of the memory map inside `encode_internal` this model was written against** (see `c06_function_map_uses_reviewed`):
+    memory exports, the code loop (every operator with a memory immediate, through `fix_op_id_mapping`), the memory index of
+    active data segments; constant expressions take the map but cannot mention a memory -/
+theorem c08_memory_map_uses_reviewed :
+    Orca.Gen.mapUsesMemory = ["resolve-special:memory:pass", "tables:memory:pass", "exports:memory:get", "elements:memory:pass", "elements:memory:pass", "code:memory:pass", "code:memory:pass", "code:memory:pass", "code:memory:pass", "code:memory:use", "code:memory:use", "data:memory:get"] := by decide
 
 end Orca.Edit
